@@ -77,6 +77,11 @@ func introspectRemoteSchema(factory QueryerFactory, url string) (*ast.Schema, er
 
 	remoteSchema := res.Schema
 
+	// a type wrapped deeper than the query above asks for arrives cut off
+	if err := checkTypeRefs(remoteSchema); err != nil {
+		return nil, err
+	}
+
 	schema := &ast.Schema{
 		Types:         map[string]*ast.Definition{},
 		Directives:    map[string]*ast.DirectiveDefinition{},
@@ -473,6 +478,47 @@ func parseArgList(args []IntrospectionInputValue) ast.ArgumentDefinitionList {
 	}
 
 	return result
+}
+
+// checkTypeRefs reports a type reference which does not end in a named type: the introspection query
+// unfolds a limited number of ofType levels, parseTypeRef relies on every level being there
+func checkTypeRefs(remoteSchema *IntrospectionQuerySchema) error {
+	if remoteSchema == nil {
+		return errors.New("introspection answer carries no schema")
+	}
+	complete := func(ref *IntrospectionTypeRef) bool {
+		for ref != nil && (ref.Kind == "LIST" || ref.Kind == "NON_NULL") {
+			ref = ref.OfType
+		}
+		return ref != nil && ref.Name != ""
+	}
+	checkArgs := func(owner string, args []IntrospectionInputValue) error {
+		for i := range args {
+			if !complete(&args[i].Type) {
+				return fmt.Errorf("type of %s.%s is wrapped deeper than the introspection query unfolds", owner, args[i].Name)
+			}
+		}
+		return nil
+	}
+	for _, t := range remoteSchema.Types {
+		for i := range t.Fields {
+			if !complete(&t.Fields[i].Type) {
+				return fmt.Errorf("type of %s.%s is wrapped deeper than the introspection query unfolds", t.Name, t.Fields[i].Name)
+			}
+			if err := checkArgs(t.Name+"."+t.Fields[i].Name, t.Fields[i].Args); err != nil {
+				return err
+			}
+		}
+		if err := checkArgs(t.Name, t.InputFields); err != nil {
+			return err
+		}
+	}
+	for _, d := range remoteSchema.Directives {
+		if err := checkArgs("@"+d.Name, d.Args); err != nil {
+			return err
+		}
+	}
+	return nil
 }
 
 func parseTypeRef(response *IntrospectionTypeRef) *ast.Type {
